@@ -82,3 +82,31 @@ def all_models(max_tokens, unary="all", rotations=(0,)):
             for mask in masks:
                 for rot in rotations:
                     yield {"n": n, "shape": shape, "mask": mask, "rot": rot}, to_model(shape, mask, rot)
+
+
+# ----------------------------------------------------------------------------------------------- long sentences
+
+def long_sentences():
+    """Sentences with more than a hundred tokens (token numbers and export node numbers with three digits, differences
+    of more than 100 between the leftmost tokens of nodes of different levels): flat clause with a late phrase, a deep
+    right-branching spine, a discontinuous clause around a long middle field."""
+    def tok(i):
+        return {"w": "w%d" % i, "p": "NN", "n": i, "e": "--", "lem": "--", "m": "--"}
+
+    def node(label, children):
+        return {"l": label, "e": "--", "lem": "--", "m": "--", "c": children}
+    out = []
+    # flat S over 130 tokens whose last ten form an NP inside a PP (a level-2 node starting at token 121)
+    n = 130
+    late = node("PP", [tok(120), node("NP", [tok(i) for i in range(121, n + 1)])])
+    out.append(("flat-clause-with-late-phrase", {"sid": 1, "root": node("VROOT", [node("S", [tok(i) for i in range(1, 120)] + [late])])}))
+    # right-branching spine of depth 60 over 125 tokens
+    cur = node("X", [tok(124), tok(125)])
+    for i in range(122, 2, -2):
+        cur = node("X", [tok(i), tok(i + 1), cur])
+    out.append(("right-branching-spine", {"sid": 2, "root": node("VROOT", [tok(1), tok(2), tok(3), cur])}))
+    # discontinuous VP {1..3, 260..262} around a middle field of constituents, 262 tokens
+    middle = [node("NP", [tok(i), tok(i + 1)]) for i in range(4, 260, 2)]
+    vp = node("VP", [tok(1), tok(2), tok(3), node("NP", [tok(260), tok(261)]), tok(262)])
+    out.append(("discontinuous-around-long-middle-field", {"sid": 3, "root": node("VROOT", [node("S", [vp] + middle)])}))
+    return out
